@@ -22,7 +22,7 @@ INFO = {
     'functions': ['pl.state.FSM.__init__ (state.dot -> transitions)', 'FSM.start/load/navel_gaze/reload/archive/_archive/_archive_done/_pipeline/_reload/_navel_gaze/save_prior_state/reset',
                   'FSM.set_submit_info/submit_crossroads/wait_for_crew/wait_for_doing/wait_for_todo/wait_for_nothing/is_crew_done/is_doing_done/is_todo_done/is_pipeline_active',
                   'fe.submit.Defer.__call__/Process.step_0..3/failure', 'fe.api.cmd_reset', 'pl.farm.dispatch (archive branch)/something_to_do/notify_all/clear'],
-    'bounds': {'quick': 'histories of <=4 events from boot and <=4 from running (17 event kinds incl. both submit endpoints, asynchronous compliance verification, independent work flags), then drain; directed 5-event families around the asynchronous API submission and new data', 'thorough': '<=6 events from running, <=5 from boot; directed families with 4 free events'},
+    'bounds': {'quick': 'histories of <=4 events from boot and <=4 from running (17 event kinds incl. both submit endpoints, asynchronous compliance verification, independent work flags), then drain; directed 5-event families around the asynchronous API submission and new data', 'thorough': '<=5 events from running and from boot; directed families with 4 free events'},
     'assumptions': [
         'deferToThread/time.sleep/reactor.callLater are fakes: a background job runs to completion atomically when scheduled; a poller whose loop condition still holds stays pending',
         'I/O of the state bodies (scan, db open/close/archive, version tables, schedule.build, git, mail, sockets, svg) is stubbed; their control flow is real',
@@ -36,7 +36,7 @@ INFO = {
 def obligations(tier):
     out = []
     n = len(fsm.EVENTS)
-    cfgs = [('boot', 4), ('running', 4)] if tier == 'quick' else [('boot', 5), ('running', 6)]
+    cfgs = [('boot', 4), ('running', 4)] if tier == 'quick' else [('boot', 5), ('running', 5)]
     for start, k in cfgs:
         fix = 1 if k <= 5 else 2
         free = [f'e{i}' for i in range(fix, k)]
